@@ -1,5 +1,6 @@
 """C16 — multipart/form-data bodies round-trip part for part."""
 import codec_common as K
+import codec_random as R
 
 
 def body_tag(b):
@@ -55,4 +56,4 @@ def run(tier, replay):
                        "Gen_Codec(c16): 8 boundary classes x single parts over 18 body classes (lengths 0..3 over CR / LF / dash / letter, CRLF at either end, binary 0..255), all pairs of "
                        "body classes as two parts, 3..8 parts; FormMultipartData::parse(generate(parts, b), b) compared part for part (cases where the boundary occurs in the data are "
                        "outside the precondition and skipped by the spec); three corrupted bodies must be rejected; the boundary parameter as browsers send it",
-                       ["the boundary is passed to generate/parse exactly as the caller would pass it (the library uses one string as opening, separating and closing delimiter)"])
+                       ["the boundary is passed to generate/parse exactly as the caller would pass it (the library uses one string as opening, separating and closing delimiter)"], extra_cases=R.c16)
